@@ -1,0 +1,13 @@
+//go:build verif
+
+package impl
+
+import "context"
+
+// VerifSyntaxErrors runs the language server's syntax check (diagnoseRaw) on input and returns the
+// number of diagnostics. For the verification harness (/verif, property C07); adds no behaviour.
+func VerifSyntaxErrors(input string) int {
+	l := NewSyslErrorListener(context.Background(), nil)
+	(&Server{}).diagnoseRaw(input, l)
+	return len(l.Errors)
+}
